@@ -91,7 +91,35 @@ class Module:
         self.classes = {}
         self.consts = {}  # module level NAME = expr (last assignment)
         self.imports = {}  # local name -> (module, name)
+        self.renamed = {}
+        self._undo_local_renames()
         self._index()
+
+    def _undo_local_renames(self):
+        """Normalisation aid, not a rule: if a function of today's source is
+        alpha-equivalent to the same function of the reference copy under
+        /verif/reference (same AST up to a consistent, bijective renaming of
+        *local* names: assigned names, loop/comprehension targets, nested
+        function names and their parameters), the local names are renamed
+        back so that rules which look locals up by name keep working after a
+        pure rename refactoring.  Anything else is left exactly as it is."""
+        ref_path = os.path.join(VERIF, 'reference', self.rel)
+        if not os.path.exists(ref_path):
+            return
+        try:
+            with open(ref_path, 'rb') as fh:
+                ref_tree = ast.parse(fh.read().decode('utf-8'))
+        except SyntaxError:
+            return
+        ref_funcs = dict(_top_functions(ref_tree))
+        for qual, node in _top_functions(self.tree):
+            ref = ref_funcs.get(qual)
+            if ref is None:
+                continue
+            mapping = alpha_map(ref, node)
+            if mapping:
+                _Rename(mapping).visit(node)
+                self.renamed[qual] = mapping
 
     def _index(self):
         for st in self.tree.body:
@@ -143,6 +171,151 @@ class Module:
 
     def segment(self, node):
         return ast.get_source_segment(self.src, node)
+
+
+def _top_functions(tree):
+    """(qualname, node) for module functions, methods and the main block."""
+    for st in tree.body:
+        if isinstance(st, (ast.FunctionDef, ast.AsyncFunctionDef)):
+            yield st.name, st
+        elif isinstance(st, ast.ClassDef):
+            for m in st.body:
+                if isinstance(m, (ast.FunctionDef, ast.AsyncFunctionDef)):
+                    yield st.name + '.' + m.name, m
+        elif isinstance(st, ast.If) and _is_main_guard(st.test):
+            yield '<main>', st
+
+
+def _locals_of(fn):
+    """Names bound inside fn other than its own parameters."""
+    out = set()
+    own = set()
+    if isinstance(fn, (ast.FunctionDef, ast.AsyncFunctionDef)):
+        a = fn.args
+        own = {x.arg for x in a.posonlyargs + a.args + a.kwonlyargs}
+        if a.vararg:
+            own.add(a.vararg.arg)
+        if a.kwarg:
+            own.add(a.kwarg.arg)
+    glob = set()
+    for n in ast.walk(fn):
+        if n is fn:
+            continue
+        if isinstance(n, ast.Name) and isinstance(n.ctx,
+                                                  (ast.Store, ast.Del)):
+            out.add(n.id)
+        elif isinstance(n, (ast.FunctionDef, ast.AsyncFunctionDef)):
+            out.add(n.name)
+            a = n.args
+            out |= {x.arg for x in a.posonlyargs + a.args + a.kwonlyargs}
+        elif isinstance(n, ast.Lambda):
+            a = n.args
+            out |= {x.arg for x in a.posonlyargs + a.args + a.kwonlyargs}
+        elif isinstance(n, ast.ExceptHandler) and n.name:
+            out.add(n.name)
+        elif isinstance(n, (ast.Global, ast.Nonlocal)):
+            glob |= set(n.names)
+    return out - own - glob
+
+
+def alpha_map(ref, cur):
+    """{today's local name: reference local name} if `cur` equals `ref` up
+    to a non-trivial consistent bijective renaming of local names; else
+    None."""
+    rlocals = _locals_of(ref)
+    clocals = _locals_of(cur)
+    fwd, back = {}, {}
+
+    def name(r, c):
+        if r in rlocals or c in clocals:
+            if r not in rlocals or c not in clocals:
+                return False
+            if fwd.setdefault(c, r) != r or back.setdefault(r, c) != c:
+                return False
+            return True
+        return r == c
+
+    def cmp(r, c):
+        if type(r) is not type(c):
+            return False
+        if isinstance(r, ast.AST):
+            if isinstance(r, ast.Name):
+                return name(r.id, c.id)
+            if isinstance(r, ast.Call) and isinstance(
+                    r.func, ast.Attribute) and r.func.attr == 'locals' and \
+                    isinstance(c, ast.Call) and len(r.keywords) == len(
+                        c.keywords) and not r.args and not c.args:
+                # @cython.locals(name=type): keyword names are local names
+                return cmp(r.func, c.func) and all(
+                    name(kr.arg, kc.arg) and cmp(kr.value, kc.value)
+                    for kr, kc in zip(r.keywords, c.keywords))
+            if isinstance(r, ast.arg):
+                if r is not None and not name(r.arg, c.arg):
+                    # parameters of the function itself are not locals:
+                    # name() demands equality for them
+                    return False
+                return True
+            for f in r._fields:
+                rv, cv = getattr(r, f, None), getattr(c, f, None)
+                if f == 'name' and isinstance(
+                        r, (ast.FunctionDef, ast.AsyncFunctionDef)) and \
+                        r is not ref:
+                    if not name(rv, cv):
+                        return False
+                    continue
+                if f == 'name' and isinstance(r, ast.ExceptHandler) and rv:
+                    if not name(rv, cv):
+                        return False
+                    continue
+                if f in ('type_comment', ):
+                    continue
+                if not cmp(rv, cv):
+                    return False
+            return True
+        if isinstance(r, list):
+            return len(r) == len(c) and all(cmp(a, b) for a, b in zip(r, c))
+        return r == c
+
+    if isinstance(ref, ast.If):  # main block
+        ok = cmp(ref.body, cur.body)
+    else:
+        ok = cmp(ref, cur)
+    if not ok:
+        return None
+    mapping = {c: r for c, r in fwd.items() if c != r}
+    return mapping or None
+
+
+class _Rename(ast.NodeTransformer):
+    def __init__(self, mapping):
+        self.m = mapping
+
+    def visit_Name(self, n):
+        n.id = self.m.get(n.id, n.id)
+        return n
+
+    def visit_arg(self, n):
+        n.arg = self.m.get(n.arg, n.arg)
+        return n
+
+    def visit_FunctionDef(self, n):
+        n.name = self.m.get(n.name, n.name)
+        self.generic_visit(n)
+        return n
+
+    def visit_ExceptHandler(self, n):
+        if n.name:
+            n.name = self.m.get(n.name, n.name)
+        self.generic_visit(n)
+        return n
+
+    def visit_Call(self, n):
+        if isinstance(n.func, ast.Attribute) and n.func.attr == 'locals' \
+                and not n.args:
+            for kw in n.keywords:
+                kw.arg = self.m.get(kw.arg, kw.arg)
+        self.generic_visit(n)
+        return n
 
 
 def _is_main_guard(test):
